@@ -650,20 +650,136 @@ Fixpoint gv_eqb (a b : gv) {struct a} : bool :=
   | _, _ => false
   end.
 
+(** * Documents: graphql.Parse, lines 382-452, in the order of the code *)
+(** Parse (1) walks the variable definitions and installs the defaults ([apply_defaults]); (2) converts the
+    selection set of every named fragment, (3) then that of the operation - (2) and (3) with the
+    *defaulted* variable map (parseSelectionSet -> argsToJson).  Fields therefore get their arguments the
+    same way wherever they stand.  (detectCyclesAndUnusedFragments and detectConflicts are not modelled:
+    documents are assumed to pass them; a spread of an unknown fragment is the client error of line 161.) *)
+Inductive sel : Type :=
+| SField (f : string) (args : list (string * lit))
+| SSpread (n : string)                       (* ...Name *)
+| SInline (b : list sel).                    (* ... on T { b } *)
+
+Inductive csel : Type :=                     (* after Parse: UnparsedArgs are JSON *)
+| CField (f : string) (j : jv)
+| CSpread (n : string)
+| CInline (b : list csel).
+
+Record doc := mk_doc { d_defs : list vardef; d_frags : list (string * list sel); d_body : list sel }.
+Record pdoc := mk_pdoc { p_frags : list (string * list csel); p_body : list csel }.
+
+Fixpoint conv_sel (names : list string) (vars : list (string * jv)) (s : sel) {struct s} : result csel :=
+  match s with
+  | SField f args => match args_to_json vars args with Ok j => Ok (CField f j) | Err e => Err e end
+  | SSpread n => if mem_str n names then Ok (CSpread n) else Err EParse      (* "unknown fragment" *)
+  | SInline b =>
+      match (fix go (b : list sel) : result (list csel) :=
+               match b with
+               | [] => Ok []
+               | x :: r => match conv_sel names vars x with
+                           | Err e => Err e
+                           | Ok c => match go r with Ok cs => Ok (c :: cs) | Err e => Err e end
+                           end
+               end) b with
+      | Ok cs => Ok (CInline cs)
+      | Err e => Err e
+      end
+  end.
+
+Fixpoint conv_sels (names : list string) (vars : list (string * jv)) (b : list sel) : result (list csel) :=
+  match b with
+  | [] => Ok []
+  | x :: r => match conv_sel names vars x with
+              | Err e => Err e
+              | Ok c => match conv_sels names vars r with Ok cs => Ok (c :: cs) | Err e => Err e end
+              end
+  end.
+
+Fixpoint conv_frags (names : list string) (vars : list (string * jv)) (fr : list (string * list sel))
+  : result (list (string * list csel)) :=
+  match fr with
+  | [] => Ok []
+  | (n, b) :: r => match conv_sels names vars b with
+                   | Err e => Err e
+                   | Ok cb => match conv_frags names vars r with
+                              | Ok cr => Ok ((n, cb) :: cr)
+                              | Err e => Err e
+                              end
+                   end
+  end.
+
+Definition parse_doc (vars : list (string * jv)) (d : doc) : result pdoc :=
+  match apply_defaults (d_defs d) vars vars with           (* 1: variable definitions and defaults *)
+  | Err e => Err e
+  | Ok vars' =>
+      let names := map fst (d_frags d) in
+      match conv_frags names vars' (d_frags d) with        (* 2: fragment bodies, defaulted variables *)
+      | Err e => Err e
+      | Ok cf => match conv_sels names vars' (d_body d) with   (* 3: the operation *)
+                 | Err e => Err e
+                 | Ok cb => Ok (mk_pdoc cf cb)
+                 end
+      end
+  end.
+
+(** The fields a selection set reaches (PrepareQuery / Flatten walk through fragments); [fuel] bounds the
+    nesting depth (Parse has refused cyclic fragments). *)
+Fixpoint cfields (fuel : nat) (frags : list (string * list csel)) (s : csel) {struct fuel} : list (string * jv) :=
+  match fuel with
+  | O => []
+  | S k =>
+      match s with
+      | CField f j => [(f, j)]
+      | CSpread n => match lookup n frags with Some b => flat_map (cfields k frags) b | None => [] end
+      | CInline b => flat_map (cfields k frags) b
+      end
+  end.
+
+Definition doc_fields (fuel : nat) (p : pdoc) : list (string * jv) :=
+  flat_map (cfields fuel (p_frags p)) (p_body p).
+
+(** The three places a field can stand in. *)
+Inductive place := InBody | InFragment | InInline.
+
+Definition doc_at (pl : place) (defs : list vardef) (f : string) (args : list (string * lit)) : doc :=
+  match pl with
+  | InBody => mk_doc defs [] [SField f args]
+  | InFragment => mk_doc defs [("Fr", [SField f args])] [SSpread "Fr"]
+  | InInline => mk_doc defs [] [SInline [SField f args]]
+  end.
+
+Section RunDoc.
+  Variable b64_dec : string -> option (list Z).
+  Variable time_dec : string -> option tval.
+  Variable text_dec : string -> option string.
+
+  (** Parse the document, then parse the arguments of the one field [f] it reaches. *)
+  Definition run_doc (t : ty) (vars : list (string * jv)) (d : doc) : result gv :=
+    match parse_doc vars d with
+    | Err e => Err e
+    | Ok p => match doc_fields 4 p with
+              | [(_, j)] => parse b64_dec time_dec text_dec t j
+              | _ => Err EParse
+              end
+    end.
+End RunDoc.
+
 Inductive obs := OOk (v : gv) | OErrParse | OErrArgs | OOther.
 
 Record send := mk_send { s_defs : list vardef; s_vars : list (string * jv);
-                         s_args : list (string * lit); s_obs : obs;
+                         s_args : list (string * lit); s_place : place; s_obs : obs;
                          s_calls : Z (* resolver calls observed for this request *) }.
 
 Record case := mk_case { c_ty : ty; c_sends : list send }.
 
-Definition run_conc := run_args b64_dec time_dec text_dec.
+Definition run_conc (t : ty) (s : send) : result gv :=
+  run_doc b64_dec time_dec text_dec t (s_vars s) (doc_at (s_place s) (s_defs s) "f" (s_args s)).
 
 (** codes: 1 = accepted/rejected (or the rejecting phase) differs, 2 = value reaching the resolver differs,
     3 = number of resolver calls differs from the two-phase machine's (1 after Ok, 0 after Err) *)
 Definition check_send (t : ty) (s : send) : list nat :=
-  let r := run_conc t (s_defs s) (s_vars s) (s_args s) in
+  let r := run_conc t s in
   let c1 := match r, s_obs s with
             | Ok _, OOk _ | Err EParse, OErrParse | Err EArgs, OErrArgs => []
             | _, _ => [1%nat]
